@@ -27,7 +27,7 @@ for d in sorted(glob.glob('/verif/seeded/*')):
             for c in checks:
                 t0 = time.time()
                 cmd = ['./verify', 'check', c, '--tier', a.tier] + a.extra_args.split()
-                p = subprocess.run(cmd, cwd='/verif', stdout=subprocess.PIPE, stderr=subprocess.STDOUT, env=dict(os.environ, PETL_REPO=R))
+                p = subprocess.run(cmd, cwd='/verif', stdout=subprocess.PIPE, stderr=subprocess.STDOUT, env=dict(os.environ, PETL_REPO=R, VERIF_EVIDENCE_DIR='/tmp/pv_seeded_evidence'))
                 out = p.stdout.decode('utf-8', 'replace')
                 jobs = re.findall(r'^  job=(\S+) :: (.*)$', out, re.M)
                 res['%s@%s' % (c, a.tier)] = dict(tier=a.tier, exit=p.returncode, detected=(p.returncode == 1 and 'VIOLATION property=' in out),
